@@ -66,10 +66,15 @@ func genTdCase(rng *rand.Rand, malformed bool) tdCase {
 	// layout: sequence of frames with gaps, inserted in shuffled order
 	n := 1 + rng.Intn(6)
 	t := tdBase + int64(rng.Intn(600))*60
+	atEpoch := rng.Intn(8) == 0
+	if atEpoch {
+		// the first frame starts exactly at the epoch (value 0 — also "unset" in more than one place of the code)
+		t = 0
+	}
 	adj, gap := 0, 0
 	for i := 0; i < n; i++ {
 		g := int64(0)
-		if rng.Intn(3) != 0 {
+		if rng.Intn(3) != 0 && !(atEpoch && i == 0) {
 			g = int64(1+rng.Intn(90)) * 60
 			gap++
 		} else if i > 0 {
@@ -84,6 +89,9 @@ func genTdCase(rng *rand.Rand, malformed bool) tdCase {
 		t = s + l
 	}
 	c.Layout = fmt.Sprintf("frames=%d adjacent=%d gapped=%d", n, adj, gap)
+	if atEpoch {
+		c.Layout += " first-at-epoch"
+	}
 	rng.Shuffle(len(c.Frames), func(i, j int) { c.Frames[i], c.Frames[j] = c.Frames[j], c.Frames[i] })
 	if malformed {
 		k := rng.Intn(len(c.Frames) + 1)
